@@ -722,21 +722,26 @@ Definition applied_inv_entry (t : tt) (f : fid) : option ient :=
 Definition all_fids (t : tt) : list fid :=
   flat_map (fun x => match tree_file_id x with Some f => [f] | None => [] end) (seq 0 (List.length base))
   ++ map snd (new_id t).
-(* apply_inventory_delta refuses a result in which an entry has no directory parent or two entries
-   share parent and name (InconsistentDelta; raised after the files were moved) *)
+(* apply_inventory_delta (dirstate update_by_delta) refuses a delta in which a written entry has no
+   directory parent or two entries share parent and name (InconsistentDelta; raised after the files were
+   moved).  Entries the delta does not mention follow their parent; below a parent that is no directory
+   any more they are dropped silently. *)
 Definition ient_sibling_eqb (a b : ient) : bool :=
   onat_eqb (i_parent a) (i_parent b) && bytes_eqb (i_name a) (i_name b).
+Definition parent_is_dir (t : tt) (e : ient) : bool :=
+  match i_parent e with
+  | None => true
+  | Some g => match applied_inv_entry t g with
+              | Some pe => kind_eqb (i_kind pe) KDir
+              | None => false
+              end
+  end.
+Definition written (t : tt) (f : fid) : bool := ahas f (delta_adds t).
 Definition inv_inconsistent (t : tt) : bool :=
   existsb (fun f => match applied_inv_entry t f with
                     | None => false
                     | Some e =>
-                        (match i_parent e with
-                         | None => false
-                         | Some g => match applied_inv_entry t g with
-                                     | Some pe => negb (kind_eqb (i_kind pe) KDir)
-                                     | None => true
-                                     end
-                         end)
+                        (written t f && negb (parent_is_dir t e))
                         || existsb (fun f' => negb (Nat.eqb f f')
                                               && match applied_inv_entry t f' with
                                                  | Some e' => ient_sibling_eqb e e'
@@ -744,7 +749,11 @@ Definition inv_inconsistent (t : tt) : bool :=
                                                  end) (all_fids t)
                     end) (all_fids t).
 Definition inv_after (t : tt) (f : fid) : option ient :=
-  if inv_inconsistent t then base_inv_entry f else applied_inv_entry t f.
+  if inv_inconsistent t then base_inv_entry f
+  else match applied_inv_entry t f with
+       | Some e => if written t f || parent_is_dir t e then Some e else None
+       | None => None
+       end.
 Definition inv_path (t : tt) (f : fid) : option (list name) :=
   path_via (fun g => match inv_after t g with
                      | Some e => Some (i_parent e, i_name e)
